@@ -77,8 +77,13 @@ func inDomain(kind, s string) bool {
 		return true
 	case "email":
 		at := strings.Split(s, "@")
-		if len(at) != 2 || !isBenignWord(at[0]) {
+		if len(at) != 2 {
 			return false
+		}
+		for _, x := range strings.Split(at[0], ".") { // local part: benign words joined by single dots
+			if !isBenignWord(x) {
+				return false
+			}
 		}
 		d := strings.Split(at[1], ".")
 		if len(d) < 2 {
@@ -306,6 +311,32 @@ func TestC14(t *testing.T) {
 			w.Judge(ev.Case{Kind: "words", In: strings.ReplaceAll(t, "W", gen.UpperASCII(wc[i].Word))})
 		}
 	})
+
+	// e-mail addresses with a long dotted local part: a keyword spelled by the tail of a benign word, starting at every
+	// offset around the 31/32-byte clip (a word that is cut there leaves the keyword standing alone)
+	var mails []string
+	for _, kwd := range []string{"or", "and", "union", "select", "like", "in", "is", "not", "having", "limit", "xor", "mod", "div", "between", "null", "true", "all", "as"} {
+		for off := 24; off <= 40; off++ {
+			for _, wl := range []int{5, 9, 31} {
+				var sb strings.Builder
+				for sb.Len() < off {
+					if n := sb.Len(); n > 0 && (n+1)%(wl+1) == 0 && n+2 < off {
+						sb.WriteByte('.')
+					} else {
+						sb.WriteByte("abcdefghijklmnopqrstuvwxyz"[(sb.Len()*7+wl)%26])
+					}
+				}
+				local := sb.String() + kwd
+				for _, dom := range []string{"example.com", "mail.example.org"} {
+					if m := local + "@" + dom; inDomain("email", m) {
+						mails = append(mails, m)
+					}
+				}
+			}
+		}
+	}
+	p = c.rec.NewPart("long_dotted_emails", fmt.Sprintf("%d e-mail addresses whose dotted local part spells a keyword with the tail of a benign word at every offset 24..40", len(mails)), false, true, "")
+	c.ParRange(p, int64(len(mails)), func(w *Worker, i int64) { w.Judge(ev.Case{Kind: "email", In: mails[i]}) })
 
 	// long identifiers of every length 1..80 that end in, start with or contain a keyword
 	var longIDs []string
